@@ -444,10 +444,15 @@ func (c *Client) store(rid string, r *CRes, f *Frame) {
 		c.closeInterval(old, "resent")
 	}
 	if c.DeletedSeen[rid] {
-		if _, v := c.s.W.lookup(c.expandCID(rid)); v != nil && !v.Deleted && c.s.loadedAnew(v, c.DeletedSeq[rid]) {
+		if _, v := c.s.W.lookup(c.expandCID(rid)); v != nil && !v.Deleted && r.Kind != 'e' {
 			// the delete event came from a not-found answer to a reset re-fetch or
-			// query request, the resource is still there: loaded anew, it lives again
+			// query request while the resource is still there. The copy sent now is
+			// either a new load (and lives) or the gateway's copy of the deleted
+			// resource, kept because something still refers to it (and is dead):
+			// from outside the two cannot be told apart
 			delete(c.DeletedSeen, rid)
+			r.Ambiguous = true
+			c.s.stat("exempt.resent_after_derived_delete", 1)
 		} else {
 			// a re-sent copy of a resource the client knows to be deleted stays deleted
 			r.Deleted = true
